@@ -5,6 +5,15 @@ import UralModel.Gen.UrllibTables
 import UralModel.Gen.ProtocolRe
 /-!
 # C15 — infer_redirection terminates and returns the input or an embedded target
+
+Property theorems only (model: `Model/Redirect.lean`; helper lemmas: `Lemmas/Redirect.lean`).
+
+* termination / fixed point / iteration law, proved for ANY target-extraction function
+  (`inferOf_*`) and instantiated (`infer_total`, `infer_fixed_point`, `infer_step_fixed`,
+  `infer_is_iterated_step`, `infer_never_longer`);
+* embeddedness of what the modelled extraction returns (`domainSplit_suffix`,
+  `redirectSearch_embedded`, `infer_target_embedded`, `infer_result_chain`);
+* table obligations tying the hand-written matchers to the regexes found in the source.
 -/
 namespace Ural.Props.C15
 open Ural Ural.Py
@@ -49,11 +58,6 @@ function for every `target`.  Nothing below depends on how targets are extracted
 section Generic
 variable (target : Str → Option Str)
 
-/-- `n`-fold application -/
-def iterStep (f : Str → Str) : Nat → Str → Str
-  | 0, u => u
-  | n + 1, u => iterStep f n (f u)
-
 /-- the defining equation of the recursion (what the Python code does) -/
 theorem inferOf_unfold (u : Str) :
     inferOf target u =
@@ -62,21 +66,6 @@ theorem inferOf_unfold (u : Str) :
       | none => u := by
   rw [inferOf]
   cases target u <;> rfl
-
-/-- induction on the length of a string -/
-theorem length_induction {P : Str → Prop}
-    (h : ∀ u, (∀ v, v.length < u.length → P v) → P u) : ∀ u, P u := by
-  have aux : ∀ n, ∀ u : Str, u.length < n → P u := by
-    intro n
-    induction n with
-    | zero => intro u hu; exact absurd hu (Nat.not_lt_zero _)
-    | succ n ih =>
-      intro u hu
-      apply h
-      intro v hv
-      exact ih v (by omega)
-  intro u
-  exact aux (u.length + 1) u (Nat.lt_succ_self _)
 
 /-- one step either changes nothing — and then the recursion stops there — or yields a
 strictly shorter string on which the recursion continues -/
@@ -260,12 +249,6 @@ theorem infer_target_embedded (u : Str) : Embedded u (inferStep u) := by
                   · injection ht with ht; exact Or.inr (Or.inl ht.symm)
                   · exact absurd ht (by simp)
     · exact Or.inl rfl
-
-theorem iterStep_succ_apply (f : Str → Str) (n : Nat) (u : Str) :
-    iterStep f (n + 1) u = f (iterStep f n u) := by
-  induction n generalizing u with
-  | zero => rfl
-  | succ n ih => exact ih (f u)
 
 /-- **the recursive result is reached through embedded targets only**: it is the end of a
 chain `u = x₀, x₁, …, xₙ = infer u` (`n ≤ len(u)`) in which every element is a target
